@@ -16,7 +16,7 @@ func init() {
 		Explanation: "Static transaction-discipline rules over the badger driver: (one-txn) every store method performs all its reads and writes in exactly one db.Update/db.View closure, writes only in Update, so badger's atomic commit covers multi-key operations; " +
 			"(propagate) every error of a write (txn.Set/SetEntry/Delete, setItem, setExpiringItem, setVersion, gob Encode, a migration step) is branched on or returned and every return reachable from its failure edge is non-nil — a swallowed error commits a partial operation; " +
 			"(key-lifetime) no slice obtained from Item.Key() flows into a write or delete (badger keeps the slice until commit while the iterator recycles it); " +
-			"(migration) Open returns a store only past MigrateLatest's success edge, Migrate runs the steps inside one Update and touches nothing when the version is current, the step table has dbVersion entries, step i asserts version i and sets i+1 on every success path, and steps only touch the nonce/version key spaces. Round 2: no nested transaction; iterator-keyed writes are prefix-confined also inside helpers; (wiring) every store constructed in runPool is the one handed to pool.New.",
+			"(migration) Open returns a store only past MigrateLatest's success edge, Migrate runs the steps inside one Update and touches nothing when the version is current, the step table has dbVersion entries, step i asserts version i and sets i+1 on every success path, and steps only touch the nonce/version key spaces. Round 2: no nested transaction; iterator-keyed writes are prefix-confined also inside helpers; (wiring) every store constructed in runPool is the one handed to pool.New. Round 5: (key-spelling); retry closures.",
 		NotDecided: []string{"not decided: crash points and durability themselves (badger's commit is trusted), concurrent readers' views"},
 	}
 }
